@@ -21,6 +21,9 @@ if os.path.realpath(REPO) != '/repo':
         shutil.copytree(BUILD, os.path.join(_priv, 'build'), symlinks=True, ignore=shutil.ignore_patterns('.coq.lock'))
     COQ = os.path.join(_priv, 'coq')
     BUILD = os.path.join(_priv, 'build')
+    if not os.environ.get('VERIF_EVIDENCE_DIR'):
+        # evidence of a run against a scratch copy never overwrites the evidence of the real tree
+        EVID = '/var/tmp/nvscratch-evidence'
 GUARD = 'NEATVI_VERIF'
 REPO_OBJS = ['vi', 'ex', 'lbuf', 'mot', 'sbuf', 'ren', 'dir', 'syn', 'reg', 'led', 'uc',
              'term', 'rset', 'rstr', 'regex', 'cmd', 'tag', 'conf']
